@@ -11,3 +11,6 @@ def run(ctx):
         'no unwinding or value-range bound',
     ]
     core.run_kani_set(ctx, ['c15_'], bound='all i8 triples, no unwind bound', harness_timeout=600)
+    if ctx.tier == 'thorough':
+        # thorough tier: the same harnesses decided a second time by an independent SAT solver (kissat instead of CaDiCaL)
+        core.run_kani_set(ctx, ['c15_'], bound='all i8 triples, no unwind bound', harness_timeout=1800, solver='kissat')
